@@ -9,8 +9,9 @@
              theorems of section A).
      step_s  an IDEALISATION in which grant -> Wait is atomic.  The unguarded theorems of section B
              (C15_eval_only_with_lock ...) are about this idealised machine, not about the code as it runs.
-   Further limits stated where they apply: the pacing theorems hold exactly for shortest interval * 10^9 < 2^63
-   (C15_pacing_wrap_refuted beyond); "(and therefore notifications)" holds in the form "every notification answers a
+   Further limits stated where they apply: the pacing theorems hold exactly for shortest interval * 10^9 < 2^63, which
+   is what Configure accepts since /repo 38fa1ff (C15_configure_accepted_range; C15_pacing_wrap_refuted documents the
+   behaviour beyond, no longer reachable); "(and therefore notifications)" holds in the form "every notification answers a
    request ISSUED under the lock", not in the form "notifies only while holding the lock"
    (C15_notifications_only_while_locked_refuted); one Tick / one Response is one atomic step (overlapping request
    goroutines after a lost wake-up, and senders blocked on a busy evaluator delivering after the expiry, are below the
@@ -58,14 +59,16 @@ Theorem C15_pacing_interleaved : forall mi c0 gs tr l1 e1 a1 l2 e2 a2 l3 g t1 t2
 Proof. exact pacing_interleaved. Qed.
 Print Assumptions C15_pacing_interleaved.
 
-Theorem C15_pacing_configured_interleaved : forall mods i c0 gs tr l1 e1 a1 l2 e2 a2 l3 g t1 t2,
-  (forall m, In m mods -> 0 <= eff_interval m < max_int64) ->
-  shortest mods i -> i <= max_pace_interval ->
-  snd (run (step_i (configure_min mods)) (init_state c0 gs) tr) = l1 ++ (e1, a1) :: l2 ++ (e2, a2) :: l3 ->
+(* every configuration Configure ACCEPTS (configure mods = Some mi: since /repo 38fa1ff every module's interval is in
+   1 .. 9223372036), no further hypothesis on the intervals *)
+Theorem C15_pacing_configured_interleaved : forall mods mi i c0 gs tr l1 e1 a1 l2 e2 a2 l3 g t1 t2,
+  configure mods = Some mi ->
+  shortest mods i ->
+  snd (run (step_i mi) (init_state c0 gs) tr) = l1 ++ (e1, a1) :: l2 ++ (e2, a2) :: l3 ->
   In (Eval g t1) a1 -> In (Eval g t2) a2 ->
   forallb (keeps g) (map fst l2) = true ->
   t2 - t1 > i * ns_per_s.
-Proof. exact pacing_configured_interleaved. Qed.
+Proof. exact pacing_accepted_interleaved. Qed.
 Print Assumptions C15_pacing_configured_interleaved.
 
 (* ===== B. The idealised sequential machine: step_s =================================================== *)
@@ -127,27 +130,30 @@ Theorem C15_pacing : forall mi c0 gs tr l1 e1 a1 l2 e2 a2 l3 g t1 t2,
 Proof. exact pacing. Qed.
 Print Assumptions C15_pacing.
 
-(* the second sentence of C15 end to end: every configuration with at least one module (intervals non-negative int64
-   below MaxInt64, the SHORTEST one at most max_pace_interval = 9223372036 s: shortest * 10^9 < 2^63), every trace of the loop that Configure set up, both machines *)
-Theorem C15_pacing_configured : forall mods i c0 gs tr l1 e1 a1 l2 e2 a2 l3 g t1 t2,
-  (forall m, In m mods -> 0 <= eff_interval m < max_int64) ->
-  shortest mods i -> i <= max_pace_interval ->
-  snd (run (step_s (configure_min mods)) (init_state c0 gs) tr) = l1 ++ (e1, a1) :: l2 ++ (e2, a2) :: l3 ->
+(* the second sentence of C15 end to end: EVERY configuration Configure accepts (configure mods = Some mi; since /repo
+   38fa1ff Configure panics unless 1 <= interval <= 9223372036 = math.MaxInt64/int64(time.Second) for every module), every
+   trace of the loop it set up: two evaluations of one group entry are more than the shortest configured interval apart.
+   No hypothesis on the intervals: acceptance puts minInterval inside the range where the arithmetic is exact
+   (C15_configure_accepted_range). *)
+Theorem C15_pacing_configured : forall mods mi i c0 gs tr l1 e1 a1 l2 e2 a2 l3 g t1 t2,
+  configure mods = Some mi ->
+  shortest mods i ->
+  snd (run (step_s mi) (init_state c0 gs) tr) = l1 ++ (e1, a1) :: l2 ++ (e2, a2) :: l3 ->
   In (Eval g t1) a1 -> In (Eval g t2) a2 ->
   forallb (keeps g) (map fst l2) = true ->
   t2 - t1 > i * ns_per_s.
-Proof. exact pacing_configured. Qed.
+Proof. exact pacing_accepted. Qed.
 Print Assumptions C15_pacing_configured.
 
 (* the pace is the shortest configured interval and not a longer one: with the gate open, an iteration of the request
    loop evaluates every group whose last evaluation is more than that interval old *)
-Theorem C15_evaluated_when_due : forall mods i s now g le,
-  (forall m, In m mods -> eff_interval m < max_int64) ->
-  shortest mods i -> 0 <= i <= max_pace_interval ->
+Theorem C15_evaluated_when_due : forall mods mi i s now g le,
+  configure mods = Some mi ->
+  shortest mods i ->
   doEval s = true -> ph s <> Crashed ->
   PositiveMap.find g (groups s) = Some le -> now - le > i * ns_per_s ->
-  In (Eval g now) (snd (step_s (configure_min mods) s (Tick now))).
-Proof. exact evaluated_when_due. Qed.
+  In (Eval g now) (snd (step_s mi s (Tick now))).
+Proof. exact evaluated_when_due_accepted. Qed.
 Print Assumptions C15_evaluated_when_due.
 
 (* ===== C. The configuration step and the limits of the pacing theorems ================================ *)
@@ -183,10 +189,32 @@ Theorem C15_max_pace_interval_exact :
 Proof. exact max_pace_interval_exact. Qed.
 Print Assumptions C15_max_pace_interval_exact.
 
-(* BEYOND the bound the second sentence of C15 is FALSE for the code: one module with interval 9223372037 s (a
+(* what Configure accepts (since /repo 38fa1ff), and what it yields: minInterval in 1 .. 9223372036, the shortest
+   configured interval (310536000 without any module) *)
+Theorem C15_configure_accepted_range : forall mods mi, configure mods = Some mi ->
+  1 <= mi <= max_pace_interval /\ (mods <> [] -> shortest mods mi) /\ (mods = [] -> mi = no_module_interval).
+Proof. exact configure_accepted_range. Qed.
+Print Assumptions C15_configure_accepted_range.
+
+(* ... and an accepted configuration never reaches the rand.Int63n panic of a group-list refresh *)
+Theorem C15_refresh_never_panics_accepted : forall mods mi s now present,
+  configure mods = Some mi -> ph s <> Crashed -> snd (step_s mi s (Refresh now present)) = [].
+Proof. exact refresh_never_panics_accepted. Qed.
+Print Assumptions C15_refresh_never_panics_accepted.
+
+Example C15_configure_examples :
+  configure wrap_module = None /\ configure [mkMod (Some 0) None None] = None
+  /\ configure [mkMod (Some 9223372036854776) None None] = None /\ configure [mkMod (Some 30) None None; mkMod (Some (-5)) None None] = None
+  /\ configure [mkMod (Some 9223372037) None None] = None /\ configure [mkMod (Some 9223372036) None None] = Some 9223372036
+  /\ configure two_modules = Some 30 /\ configure [] = Some 310536000 /\ configure [mkMod None (Some 0) None] = Some 60.
+Proof. exact configure_examples. Qed.
+
+(* BEFORE-FIX DOCUMENTATION (the three statements below are about minInterval values that Configure no longer produces:
+   configure wrap_module = None, C15_configure_examples; they were reachable, and were replayed on the real code, until
+   /repo 38fa1ff -- findings/C15.json "fixed").
+   Beyond the bound the second sentence of C15 was FALSE for the code: one module with interval 9223372037 s (a
    non-negative int64 below MaxInt64 -- all that the earlier statement of C15_pacing_configured required): the Duration
-   wraps, sendBefore lies in the year 2316, every entry is due at every iteration; two evaluations 1 ms apart.
-   Replayed on the real code by the cfg probe (observation C15:interval-duration-overflow). *)
+   wraps, sendBefore lies in the year 2316, every entry is due at every iteration; two evaluations 1 ms apart. *)
 Theorem C15_pacing_wrap_refuted :
   (forall m, In m wrap_module -> 0 <= eff_interval m < max_int64) /\ shortest wrap_module 9223372037 /\
   exists tr l1 e1 a1 l2 e2 a2 l3 g t1 t2,
@@ -199,9 +227,9 @@ Print Assumptions C15_pacing_wrap_refuted.
 Example C15_wrap_twice_example : send_before 18446744074 1700000000000000000 = 1700000000000000000 - 290448384.
 Proof. exact wrap_twice_example. Qed.
 
-(* rand.Int63n(minInterval*1000) in processConsumerList: an ACCEPTED configuration whose first group-list refresh with
-   a new group kills the process -- interval 0, and every interval from 9223372036854776 on (the int64 product wraps
-   negative).  After the panic nothing is issued (no C15 violation); recorded as observation C15:refresh-int63n-panic. *)
+(* BEFORE-FIX DOCUMENTATION: rand.Int63n(minInterval*1000) in processConsumerList -- with minInterval 0, and from
+   9223372036854776 on (the int64 product wraps negative), the first group-list refresh with a new group killed the
+   process, for a configuration that was accepted.  Refused by Configure since /repo 38fa1ff. *)
 Example C15_refresh_panics_zero_interval :
   step_s (configure_min [mkMod (Some 0) None None]) (init_state true (PositiveMap.empty Z)) (Refresh 1700000000000000000 [(1%positive, 0)])
   = (mkState Crashed false true (PositiveMap.empty Z), [Panic]).
@@ -268,12 +296,12 @@ Example C15_min_interval_example :
 Proof. exact min_interval_example. Qed.
 
 Example C15_pacing_configured_example :
-  (forall m, In m two_modules -> 0 <= eff_interval m < max_int64) /\
+  configure two_modules = Some 30 /\ (forall m, In m two_modules -> 0 <= eff_interval m < max_int64) /\
   snd (run (step_s (configure_min two_modules)) (init_state true one_group)
          [Wake; LockOk; Tick 31000000000; Tick 36000000000; Tick 61000000000; Tick 61000000001])
   = [(Wake, [CallLock]); (LockOk, []); (Tick 31000000000, [Eval 1 31000000000]); (Tick 36000000000, []);
      (Tick 61000000000, []); (Tick 61000000001, [Eval 1 61000000001])].
-Proof. exact pacing_configured_example. Qed.
+Proof. exact pacing_accepted_example. Qed.
 
 Example C15_resume_example :
   snd (run (step_s 0) (init_state true one_group) [Wake; LockOk; Tick 5; Expired; Wake; UnlockErr; Wake; LockOk; Tick 9])
